@@ -679,8 +679,15 @@ func run(src string) ([]*methodInfo, *world, []string) {
 		if f.Name.Name != file.Name.Name {
 			continue
 		}
-		if p := mentionsStruct(f); p.IsValid() {
-			fatal(p, "%s is mentioned outside %s: code that is not covered by the lock table", structName, filepath.Base(src))
+		// methods of the struct may live in other files of the package too (they are collected
+		// below with the same checks); any OTHER mention there — a type, variable or constant
+		// declaration — is code the table does not cover
+		for _, d := range f.Decls {
+			if gd, ok := d.(*ast.GenDecl); ok && gd.Tok != token.IMPORT {
+				if p := mentionsStruct(gd); p.IsValid() {
+					fatal(p, "%s is mentioned in a declaration outside %s: code that is not covered by the lock table", structName, filepath.Base(src))
+				}
+			}
 		}
 		files = append(files, f)
 	}
@@ -763,7 +770,11 @@ func run(src string) ([]*methodInfo, *world, []string) {
 
 	// methods and the other functions of the file
 	var constructors []string
-	for _, d := range file.Decls {
+	var allDecls []ast.Decl
+	for _, f := range files {
+		allDecls = append(allDecls, f.Decls...)
+	}
+	for _, d := range allDecls {
 		fd, ok := d.(*ast.FuncDecl)
 		if !ok {
 			continue
